@@ -205,7 +205,7 @@ def run(ctx):
 
     findings_races = []
     # ---- 1. hook-free runs under the race detector (seeded random delays)
-    n_bare = 12 if quick else 60
+    n_bare = 10 if quick else 60
     bare_scs = [scen("bare", c, max_us=rnd.choice([0, 100, 500, 2000, 6000])) for c in sets for _ in range(n_bare)]
     bare, races = run_harness(ctx, bare_scs, "bare", par=12)
     findings_races += [("bare", x) for x in races]
@@ -264,7 +264,7 @@ def run(ctx):
     ctx.traces += explained
     mc_terminal = len(schedules)
     # ---- 3. liveness: every call returns (small sets; the state graph is acyclic so this is cheap)
-    live_sets = sets[:4] if quick else sets[:8]
+    live_sets = sets[:3] if quick else sets[:10]
     ctx.write_json("conc_mc.json", {"cfgs": live_sets, "obs": []})
     live = ctx.tlc("UConnConc_Live", workers=4, timeout=1500)
     if live.violated:
